@@ -6,8 +6,8 @@
    Abstraction: each step is atomic; a follower reconciles against the current leader's log; the
    leader-epoch-offset answer is the last offset whose entry has an epoch not above the requested
    one (Repl.EpochCache proves that the epoch cache computes exactly this); the HW-truncation
-   fallback (leader unreachable) and a leader that restarts without reconciling are outside the
-   model.
+   fallback (leader unreachable) is the extra step of Repl.Fallback; a leader that restarts
+   without reconciling is outside the model.
 
    Variant switch v_reset (true = repaired code): a newly elected leader forgets the follower
    offsets it had recorded in an earlier term. *)
